@@ -219,7 +219,11 @@ theorem lookup_filter (ms : List Entry) (i : Nat) (a : Addr) :
       · simp
 
 /-- `HasMember` (list-based): a positive answer iff the address validates, SOME stage is active and the address
-is in THAT stage's map — "membership … answers come from that stage only (no active stage means no member)" -/
+is in THAT stage's map — "membership … answers come from that stage only (no active stage means no member)".
+RESTATES THE MODEL'S DEFINITION (arbitrary `s`: unfolding of `hasMember`); likewise `C13_no_active_no_member`,
+`C13_merkle_scoped`, `C13_config_scoped`, `C13_stage_member_info_scoped`. That the Rust queries consult
+`fetch_active_stage(_index)` and only that stage's map is validated by the harness only. The frame theorems
+`C13_member_answers_frame` / `C13_stage_member_info_frame` are not mere unfoldings. -/
 theorem C13_has_member_scoped (s : State) (now : Nat) (a : Addr) :
     hasMember s now a = .ok true ↔
       validAddr a = true ∧ ∃ i, activeIdx s.stages now = some i ∧ (i, a) ∈ keys s.members := by
@@ -305,9 +309,12 @@ theorem C13_config_scoped (s : State) (now : Nat) :
 /-! ## Clause 5 — removing a stage -/
 
 /-- "A stage can be removed only before it starts, and removing it removes every later stage together with all
-their members": in every reachable state a successful `RemoveStage id` implies `now < stages[id].start`; afterwards
-the stage list is `take id`, exactly the entries of stages `< id` remain (none of a stage `≥ id`), and
-`num_members` dropped by exactly the number of removed entries. -/
+their members" — STEP-LEVEL reading: in every reachable state, at the moment `RemoveStage id` succeeds, the stage AS
+CURRENTLY CONFIGURED has not started (`now < stages[id].start`); afterwards the stage list is `take id`, exactly the
+entries of stages `< id` remain (none of a stage `≥ id`), and `num_members` dropped by exactly the number of removed
+entries. HISTORY-LEVEL reading ("a stage that once started is never removed later"): NOT covered here — see
+`C13_started_stage_stays_partial` and its counterexample `C13_started_stage_removed_counterexample`
+(`UpdateStageConfig` may rewrite the start of a running stage first; recorded as an observation, DESIGN 13.3). -/
 theorem C13_remove (v : Variant) (ops : List Op) (s s' : State) (now : Nat) (sender : Addr) (id : Nat)
     (hr : run v none ops = some s)
     (h : step v (some s) (.removeStage now sender id) = .ok (some s')) :
@@ -404,8 +411,10 @@ theorem C13_stage_list_effect (v : Variant) (ops : List Op) (s s' : State) (op :
   have hI : SInv s := by have := C13_invariant v ops; rw [hr] at this; exact this
   exact exec_stages hI h
 
-/-- a stage that has started (`stages[k].start ≤ now`, boundary included) survives EVERY execute message, known
-or unknown, from any sender: "can be removed only before it starts" for the whole message surface. -/
+/-- INDEX `k` of a stage that has started (`stages[k].start ≤ now`, boundary included) is still in the list after EVERY
+single execute message, known or unknown, from any sender: "can be removed only before it starts" for the whole message
+surface, one message at a time. The conclusion is only `k < s'.stages.length`: `UpdateStageConfig` may replace element `k`
+entirely, including its start (see `C13_started_stage_stays_partial` for what holds over histories). -/
 theorem started_stage_survives {v : Variant} {s s' : State} {op : Op} (hI : SInv s) (h : exec v s op = .ok s')
     (k : Nat) (hk : k < s.stages.length) (hstarted : s.stages[k].start ≤ op.now) :
     k < s'.stages.length := by
@@ -438,6 +447,9 @@ theorem started_stage_survives {v : Variant} {s s' : State} {op : Op} (hI : SInv
   | migrate now sender => simp only at he; rw [he]; exact hk
   | unknown now sender => simp only at he; rw [he]; exact hk
 
+/-- reachable-state form of `started_stage_survives`: after every SINGLE message, index `k` of a stage with
+`start ≤ now` is still in the list (length only — `UpdateStageConfig` may rewrite its window; nothing is said about a
+later message, see `C13_started_stage_stays_partial`). -/
 theorem C13_started_stage_not_removed (v : Variant) (ops : List Op) (s s' : State) (op : Op)
     (hr : run v none ops = some s) (h : exec v s op = .ok s')
     (k : Nat) (hk : k < s.stages.length) (hstarted : s.stages[k].start ≤ op.now) :
@@ -473,9 +485,11 @@ theorem step_some_exec {v : Variant} {s : State} {op : Op} {w : World} (hni : op
 FULL STATEMENT (literal, history-level reading of "A stage can be removed only before it starts"):
   along any history with block times `≥ t0` executed against one contract, a stage that has started by `t0`
   (`stages[k].start ≤ t0`) is still stage `k` of the list afterwards.
-This is FALSE for the unchanged code: `UpdateStageConfig` uses `validate_update`, which has no check against the
+This is false UNDER THE HISTORY READING: `UpdateStageConfig` uses `validate_update`, which has no check against the
 block time, so an admin can move the start of a RUNNING stage into the future and then remove it
-(`C13_started_stage_removed_counterexample` below; replay `corpus/C13/unstart-then-remove-*.json`).
+(`C13_started_stage_removed_counterexample` below; replay `corpus/C13/unstart-then-remove-*.json`). The STEP-LEVEL
+reading (`C13_remove`, `C13_remove_started_rejected`, `C13_remove_all_unstarted`) holds. Classification (coordinator,
+DESIGN 13.3): recorded as an OBSERVATION, not a finding — the property text does not fix the history reading.
 PROVED (partial): the statement for histories without `UpdateStageConfig` (and without a re-instantiation,
 which creates a different contract). What is missing: any restriction of `validate_update` relative to `now`.
 -/
@@ -677,7 +691,8 @@ example : stagesOf (run .merkle none [.inst 5 7 [⟨0, 1000000000⟩] 0 none [7]
 example : ∃ s', step .plain (run .plain none [exInst]) (.removeStage 19 7 1) = .ok (some s') ∧ s'.num = 1 := by
   refine ⟨_, rfl, ?_⟩; decide
 
-/-- COUNTEREXAMPLE to the literal history-level reading (see `C13_started_stage_stays_partial`): stage 0 = [10,20]
+/-- COUNTEREXAMPLE to the literal history-level reading (see `C13_started_stage_stays_partial`; an observation,
+DESIGN 13.3, not a finding — the step-level reading `C13_remove` holds): stage 0 = [10,20]
 is the ACTIVE stage at block time 15; in that same block the admin moves its start to 16 (`update_stage_config`,
 accepted: `validate_update` never looks at the clock) and then removes it (`now = 15 < 16`): a stage that had
 started — was running — is removed, with every later stage and all members. Plain and flex. -/
